@@ -15,6 +15,7 @@ Understood (nothing more):
   * statements: assignment (names, tuple unpacking, fields of a result record, write-only `self._x` bookkeeping attributes),
     augmented assignment, `if/elif/else`, `try/except Exception [as e]/else/finally`, the one `for … in [enumerate(]self._stages[)]`
     loop of `run` with `break` / `continue`, `return`, `pass`, `with self._lock:` (transparent), expression statements;
+  * `self.silent` may be read anywhere: both settings are explored and must give the same tree;
   * no-ops: docstrings, `print`, calls on a `logging.Logger` (resolved by value), updates of the statistics attributes
     (`_runs_count`, `_successful_runs`, `_failed_runs`, `_total_amplification`, `_results_history`), and any `if` whose test
     calls nothing but len/str/int/float/round/repr/max/min/bool and whose branches are all no-ops;
@@ -291,6 +292,10 @@ class Executor:
                 if isinstance(mv, (bool, int, float)):
                     return mv
             bad(n, f"name {n.id}")
+        if isinstance(n, ast.NamedExpr) and isinstance(n.target, ast.Name):
+            v = self.ev(n.value, env)
+            env[n.target.id] = v
+            return v
         if isinstance(n, ast.JoinedStr):
             if not self.harmless(n):
                 bad(n, "f-string with a call inside")
@@ -353,6 +358,8 @@ class Executor:
                 return StagesList()
             if a in ("name", "mode"):
                 return OPAQUE
+            if a == "silent":
+                return BoolSym("silent")      # both settings are explored; they must give the same tree (see build)
             bad(n, f"read of self.{a}")
         if isinstance(base, StageSym):
             if a == "name":
@@ -502,6 +509,15 @@ class Executor:
             if isinstance(base, ListV) and f.attr == "append" and len(n.args) == 1 and not n.keywords:
                 base.items.append(self.ev(n.args[0], env))
                 return None
+            if isinstance(base, ListV) and f.attr == "extend" and len(n.args) == 1 and not n.keywords:
+                more = self.ev(n.args[0], env)
+                if isinstance(more, ListV) and more.prefix is None:
+                    base.items.extend(more.items)
+                    return None
+                if isinstance(more, tuple):
+                    base.items.extend(more)
+                    return None
+                bad(n, "extend with something that is not a literal list")
             if isinstance(base, ModuleV) and isinstance(getattr(base.value, f.attr, None), type) \
                     and dataclasses.is_dataclass(getattr(base.value, f.attr)):
                 return self.record(n, getattr(base.value, f.attr), env)
@@ -1125,7 +1141,14 @@ class Translator:
                 if len(p[0]) <= depth or p[0][depth][0] != key:
                     raise Unsupported("non-deterministic replay")
                 groups.setdefault(p[0][depth][1], []).append(p)
-            return {"key": key, "alts": {c: build(g, depth + 1) for c, g in groups.items()}}
+            alts = {c: build(g, depth + 1) for c, g in groups.items()}
+            if key == ("bool", "silent"):
+                # console output on / off: must not matter
+                subs = list(alts.values())
+                if any(render_tree(x, 0) != render_tree(subs[0], 0) for x in subs[1:]):
+                    raise Unsupported("what run does depends on `silent`")
+                return subs[0]
+            return {"key": key, "alts": alts}
         return build(paths, 0), len(paths)
 
 
